@@ -47,6 +47,13 @@ def make_target():
             return len(self.j)
 
         @P.expose
+        @P.oneway
+        def note(self, k):
+            # declared oneway: whoever calls it gets nothing back, whatever it returns
+            self.j.append(k)
+            return "noted"
+
+        @P.expose
         def fail(self):
             x = ZeroDivisionError("fail", 7)
             x.code = 403
@@ -89,6 +96,11 @@ def invoke_on(target, c):
         return target.addkw(k=c["k"])
     if m == "read":
         return target.read()
+    if m == "note":
+        r = target.note(c["k"])
+        if type(target).__name__ != "BatchProxy":
+            S.CUR.quiesce()         # a oneway call is over for the caller at once; the reference run waits until it has been carried out
+        return NONE if r is None else -7      # (-7: something else than nothing came back)
     if m == "fail":
         return target.fail()
     if m == "failafter":
@@ -102,6 +114,7 @@ def invoke_on(target, c):
     raise util.MachineryError("call " + m)
 
 
+NONE = 1000000       # what Batch.tla writes for "nothing"
 UNSER = [False]      # the raising member's exception carries something no serializer can write
 
 
@@ -164,7 +177,7 @@ def submit_batch(P, bp, calls, oneway, queued=False):
         return out
     try:
         for r in gen:
-            out["results"].append(r)
+            out["results"].append(NONE if r is None else (r if isinstance(r, int) and not isinstance(r, bool) else -7))
     except (S.Hang, S.SchedAbort):
         raise
     except Exception as x:
